@@ -60,7 +60,7 @@ ASSUMPTIONS = [
 
 
 def budget(tier):
-    return int(os.environ.get("VERIF_BUDGET", 0)) or {"quick": 600, "thorough": 12000}[tier]
+    return int(os.environ.get("VERIF_BUDGET", 0)) or {"quick": 600, "thorough": 3500}[tier]
 
 
 # ================================================================== case generation
@@ -1481,7 +1481,12 @@ def run_coll(case, drv):
         elif operand == "item":
             res = (other_real[0] + base) if reflected else (base + other_real[0])
         elif operand == "collection":
-            res = base + C.create(other_real)
+            try:
+                operand_coll = C.create(other_real)
+            except ValueError:
+                # the operand itself is refused by `create` (repeated names inside it): the operation under test never runs
+                return {"tags": [f"coll:{cls}.{method}:collection:operand-refused"], "nontrivial": False}
+            res = base + operand_coll
         else:
             res = (list(other_real) + base) if reflected else (base + list(other_real))
         outcome = ["ok", [str(n) for n in res.names]]
@@ -1496,8 +1501,7 @@ def run_coll(case, drv):
         mon.append({"cls": f"container-duplicate-names:{cls}.{method}",
                     "what": f"{cls}.{method} ({operand}) on names {self_names} and {other_names} returned a collection with the "
                             f"name(s) {dup} defined twice instead of refusing"})
-    if drv is not None and outcome[0] != "exc" and not (operand == "collection" and outcome[0] == "err"
-                                                         and len({n for ns in other_names for n in ns}) != sum(map(len, other_names))):
+    if drv is not None and outcome[0] != "exc":
         enc = lambda xs: [[ns, a] for ns, a in xs]
         ans = drv.ask(["combine", cls, method, operand, reflected, enc(self_enc), enc(other_enc)])
         if ans[0] == "ok":
